@@ -40,12 +40,14 @@ WILD_SPELLINGS = ["0::0", "::0", "0::", "", "0:0:0:0:0:0:0:0", "0000:0000:0000:0
 
 SCRIPTS = {}          # request id -> list of (tag, accept)
 LOGS = {}             # request id -> list of events
-_ID = re.compile(r"id(\d+)x")
+# request ids carry the process id: traffic of another harness process can never be mistaken for ours
+_PID = os.getpid()
+_ID = re.compile(r"id(\d+n\d+)x")
 
 
 def rid_of(name):
     m = _ID.search(name)
-    return int(m.group(1)) if m else None
+    return m.group(1) if m else None
 
 
 _SERIAL = itertools.count(1)
@@ -159,7 +161,7 @@ class RecHttp(HS.HttpRequestHandler):
     def handle(self, request_info, body, context):
         rid, h = _spec(self.index, request_info.uri)
         if rid is None:          # name mangled beyond recognition: find the request through the header
-            rid = int(request_info.headers.get("X-Verif-Id", "-1"))
+            rid = request_info.headers.get("X-Verif-Id", "-1")
             h = (SCRIPTS.get(rid) or [("?", True)] * MAXH)[self.index]
         LOGS.setdefault(rid, []).append(
             ("handle", self.index, request_info.uri, _ctx(context), request_info.client_address,
@@ -282,6 +284,43 @@ def platform_has_pktinfo():
     return _PLATFORM_PKTINFO
 
 
+_port_iter = itertools.count(12000 + (os.getpid() % 190) * 100)
+
+
+def free_udp_port():
+    """TftpServer sets SO_REUSEADDR on its UDP socket; with bind_port=0 the kernel may then hand out a port that another
+    SO_REUSEADDR UDP socket (a TFTP server of ANOTHER harness process) already uses, and datagrams go astray between the
+    processes.  So the harness picks ports itself, below the ephemeral range, and checks each with a socket that does
+    not set SO_REUSEADDR."""
+    for port in _port_iter:
+        if port > 31900:
+            break
+        t = socket.socket(socket.AF_INET6, socket.SOCK_DGRAM)
+        try:
+            t.bind(("::", port))
+            return port
+        except OSError:
+            continue
+        finally:
+            t.close()
+    return 0
+
+
+def port_is_shared(port):
+    """more than one UDP socket bound to this port (possible only for the bind_port=0 servers of the restart cases)"""
+    n = 0
+    for fn in ("/proc/net/udp6", "/proc/net/udp"):
+        try:
+            with open(fn) as f:
+                for ln in f.readlines()[1:]:
+                    parts = ln.split()
+                    if len(parts) > 1 and parts[1].rsplit(":", 1)[-1].lower() == "%04x" % port:
+                        n += 1
+        except OSError:
+            pass
+    return n > 1
+
+
 def tftp_server(bind, pktinfo, filemode=False, restart=None):
     """restart: None = shared instance; "first" = dedicated instance; "restart" = stop() and start() that instance"""
     key = (bind, pktinfo, filemode, restart is not None)
@@ -290,7 +329,8 @@ def tftp_server(bind, pktinfo, filemode=False, restart=None):
             hs = [FH.TftpFileRequestHandler({"request_path": "/t", "root_dir": _tmpdir(), "template": "jinja"})]
         else:
             hs = [RecTftp(i) for i in range(MAXH)]
-        s = TS.TftpServer(hs, bind, 0, default_timeout=2.0, max_retries=1)
+        # restart cases need bind_port=0 (a new port after stop()/start()); all others get a port of our own
+        s = TS.TftpServer(hs, bind, 0 if restart is not None else free_udp_port(), default_timeout=2.0, max_retries=1)
         s.start()
         atexit.register(s.stop)
         if not platform_has_pktinfo():
@@ -305,8 +345,11 @@ def tftp_server(bind, pktinfo, filemode=False, restart=None):
         _tftp[key] = (s, s._socket.getsockname())
     if restart == "restart":
         s = _tftp[key][0]
-        s.stop()
-        s.start()                         # same object, bind_port=0: a new ephemeral port
+        for _try in range(5):
+            s.stop()
+            s.start()                     # same object, bind_port=0: a new ephemeral port
+            if not port_is_shared(s._socket.getsockname()[1]):
+                break
         if not pktinfo:
             s._have_pktinfo = False
             time.sleep(0.25)
@@ -449,8 +492,8 @@ class C10(Check):
 
     def mk(self, proto, bind, fam, pktinfo, handlers, stem=b"", tail=b"", mail=False, method="GET", headers=None,
            restart=None, debug=False, repeat=None, anc_mode=None, falsy_ctx=False, httpver=0, host="one", dst4=None):
-        rid = next(self._seq)
-        token = b"id%dx" % rid
+        rid = "%dn%d" % (_PID, next(self._seq))
+        token = b"id%sx" % rid.encode()
         if proto in (1, 3):
             name = (stem if stem else b"/") + token + tail
         else:
@@ -465,7 +508,7 @@ class C10(Check):
         hd = hosts[:1] + [("X-Verif-Id", str(rid))] + list(headers or []) + hosts[1:]
         return {"proto": proto, "bind": bind, "fam": fam, "pktinfo": pktinfo, "rid": rid, "name": name,
                 "mail": mail, "method": method, "headers": hd if proto in (1, 3) else [], "restart": restart, "debug": debug, "repeat": repeat, "anc_mode": anc_mode, "falsy_ctx": falsy_ctx, "httpver": httpver, "dst4": dst4,
-                "handlers": [("h%d-%d" % (i, rid),) + ((bool(a[0]), a[1]) if isinstance(a, tuple) else (bool(a), "ok"))
+                "handlers": [("h%d-%s" % (i, rid),) + ((bool(a[0]), a[1]) if isinstance(a, tuple) else (bool(a), "ok"))
                              for i, a in enumerate(handlers)]}
 
     def gen(self, tier, rng):
@@ -798,10 +841,10 @@ class C10(Check):
 
     def renamed(self, c, **kw):
         d = dict(c, **kw)
-        rid = next(self._seq)
-        d["name"] = re.sub(rb"id\d+x", b"id%dx" % rid, d["name"])
+        rid = "%dn%d" % (_PID, next(self._seq))
+        d["name"] = re.sub(rb"id\d+n\d+x", b"id%sx" % rid.encode(), d["name"])
         d["headers"] = [(k, str(rid) if k == "X-Verif-Id" else v) for k, v in d["headers"]]
-        d["handlers"] = [(re.sub(r"-\d+$", "-%d" % rid, t), a, k) for t, a, k in d["handlers"]]
+        d["handlers"] = [(re.sub(r"-\d+n\d+$", "-%s" % rid, t), a, k) for t, a, k in d["handlers"]]
         d["rid"] = rid
         return d
 
